@@ -69,7 +69,9 @@ Definition obs_prop_eqb (a b : obs) : bool :=
   (o_err a =? o_err b) && Bool.eqb (o_contra a) (o_contra b) &&
   (if o_err a =? 0 then
      (let '(x1, x2, x3) := o_heights a in let '(y1, y2, y3) := o_heights b in (x1 =? y1) && (x2 =? y2) && (x3 =? y3)) &&
-     list_eqb info_eqb (o_infos a) (o_infos b)
+     list_eqb info_eqb (o_infos a) (o_infos b) &&
+     (* which heights carry their own parameters (validator-set / threshold changes in force) is part of the property *)
+     list_eqb N.eqb (o_pkeys a) (o_pkeys b) && optN_eqb (o_next a) (o_next b)
    else true).
 
 Definition check_hist (c : hist_case) : N :=
